@@ -272,7 +272,8 @@ NEW_TEMPLATES = {
 # action name -> applies to cell types
 CODE_ACTIONS = ["keep", "del", "src1", "src2", "src3", "src4", "src6", "src7", "src8", "src9", "rerun", "ec",
                 "out_edit", "out_edit2", "out_clear", "out_add", "out_add2", "out_add_front", "out_del",
-                "out_del_last", "out_ec", "out_ptr", "tag_front", "tag_back", "md_scrolled_true",
+                "out_del_last", "out_ec", "out_ptr", "rerun2", "out_edit_add", "out_edit2_add2", "out_edit_md",
+                "edit_rerun", "tag_front", "tag_back", "md_scrolled_true",
                 "md_scrolled_auto", "md_del_collapsed", "md_shift",
                 "md_edit", "md_add", "md_del", "md_collapsed", "id", "dup", "to_md"]
 MD_ACTIONS = ["keep", "del", "src1", "src2", "src3", "src4", "src6", "md_edit", "md_add",
@@ -361,6 +362,45 @@ def apply_action(ctx, cell, action, tag):
             outs.append(o2)
         c["outputs"] = outs
         return [c]
+    if action == "rerun2":
+        # re-run with a different result than 'rerun'
+        if t != "code":
+            return [cell]
+        ec = ctx.ec(tag)
+        c["execution_count"] = ec
+        outs = []
+        for o in cell["outputs"]:
+            o2 = _edit_output(ctx, o, 2, tag)
+            if o2["output_type"] == "execute_result":
+                o2["execution_count"] = ec
+            outs.append(o2)
+        c["outputs"] = outs
+        return [c]
+    if action in ("out_edit_add", "out_edit2_add2", "out_edit_md", "edit_rerun"):
+        if t != "code":
+            return [cell]
+        if action == "edit_rerun":
+            step = apply_action(ctx, cell, "src1", tag)[0]
+            return apply_action(ctx, step, "rerun", tag)
+        if not cell["outputs"]:
+            return [cell]
+        if action == "out_edit_add":
+            step = apply_action(ctx, cell, "out_edit", tag)[0]
+            return apply_action(ctx, step, "out_add", tag)
+        if action == "out_edit2_add2":
+            step = apply_action(ctx, cell, "out_edit2", tag)[0]
+            step = apply_action(ctx, step, "out_add", tag)[0]
+            return apply_action(ctx, step, "out_add2", tag)
+        # out_edit_md: edit the first output and give the last one a new metadata key
+        step = apply_action(ctx, cell, "out_edit2", tag)[0]
+        outs = list(step["outputs"])
+        o = copy.copy(outs[-1])
+        if "metadata" in o:
+            o["metadata"] = dict(o["metadata"], extra=ctx.md(tag))
+            outs[-1] = o
+        step = dict(step)
+        step["outputs"] = outs
+        return [step]
     if action in ("out_edit", "out_edit2"):
         if t != "code" or not cell["outputs"]:
             return [cell]
